@@ -1430,5 +1430,84 @@ mod verif_inflate_core {
         kani::cover!(incomplete && !exempt, "COV:inittree.incomplete");
     }
 
+    // ------------------------------------------------------------------
+    // K-serde (cargo feature serde): the derived Serialize of the decoder visits EVERY field of the struct, under its
+    // own name, once, in declaration order -- a field left out (#[serde(skip)]) silently resets a live register in a
+    // serialized-and-restored copy. A recording Serializer stands in for the data format (it does not descend into
+    // the field values). The field list is tied to the struct by an exhaustive destructuring pattern: a field added,
+    // removed or renamed in /repo stops this harness from compiling (reported as undecided, never as a violation).
+    // ------------------------------------------------------------------
+    #[cfg(feature = "serde")]
+    mod serde_rec {
+        use ::serde::ser::{self, Impossible, Serialize, SerializeStruct, Serializer};
+        use ::core::sync::atomic::{AtomicUsize, Ordering::Relaxed};
+        pub static DECLARED: AtomicUsize = AtomicUsize::new(usize::MAX);
+        pub static VISITED: AtomicUsize = AtomicUsize::new(0);
+        pub static IN_ORDER: AtomicUsize = AtomicUsize::new(0);
+        pub static ENDED: AtomicUsize = AtomicUsize::new(0);
+        pub const FIELDS: [&str; 20] = ["state", "num_bits", "z_header0", "z_header1", "z_adler32", "finish", "block_type", "check_adler32", "dist",
+            "counter", "num_extra", "table_sizes", "bit_buf", "tables", "code_size_literal", "code_size_dist", "code_size_huffman", "raw_header", "len_codes", ""];
+        pub const N_FIELDS: usize = 19;
+        #[derive(Debug)]
+        pub struct E;
+        impl ::core::fmt::Display for E { fn fmt(&self, _f: &mut ::core::fmt::Formatter<'_>) -> ::core::fmt::Result { Ok(()) } }
+        impl ser::StdError for E {}
+        impl ser::Error for E { fn custom<T: ::core::fmt::Display>(_m: T) -> Self { E } }
+        pub struct Rec;
+        pub struct RecStruct;
+        fn same(a: &str, b: &str) -> bool {
+            let (a, b) = (a.as_bytes(), b.as_bytes());
+            if a.len() != b.len() { return false; }
+            let mut i = 0;
+            while i < a.len() { if a[i] != b[i] { return false; } i += 1; }
+            true
+        }
+        impl SerializeStruct for RecStruct {
+            type Ok = (); type Error = E;
+            fn serialize_field<T: ?Sized + Serialize>(&mut self, key: &'static str, _value: &T) -> Result<(), E> {
+                let n = VISITED.fetch_add(1, Relaxed);
+                if n < N_FIELDS && same(key, FIELDS[n]) { IN_ORDER.fetch_add(1, Relaxed); }
+                Ok(())
+            }
+            fn end(self) -> Result<(), E> { ENDED.fetch_add(1, Relaxed); Ok(()) }
+        }
+        macro_rules! refuse { ($($f:ident($($t:ty),*)),*) => { $(fn $f(self $(, _: $t)*) -> Result<(), E> { Err(E) })* }; }
+        impl Serializer for Rec {
+            type Ok = (); type Error = E;
+            type SerializeSeq = Impossible<(), E>; type SerializeTuple = Impossible<(), E>; type SerializeTupleStruct = Impossible<(), E>;
+            type SerializeTupleVariant = Impossible<(), E>; type SerializeMap = Impossible<(), E>; type SerializeStruct = RecStruct;
+            type SerializeStructVariant = Impossible<(), E>;
+            refuse!(serialize_bool(bool), serialize_i8(i8), serialize_i16(i16), serialize_i32(i32), serialize_i64(i64), serialize_u8(u8), serialize_u16(u16),
+                    serialize_u32(u32), serialize_u64(u64), serialize_f32(f32), serialize_f64(f64), serialize_char(char), serialize_str(&str), serialize_bytes(&[u8]),
+                    serialize_none(), serialize_unit(), serialize_unit_struct(&'static str), serialize_unit_variant(&'static str, u32, &'static str));
+            fn serialize_some<T: ?Sized + Serialize>(self, _: &T) -> Result<(), E> { Err(E) }
+            fn serialize_newtype_struct<T: ?Sized + Serialize>(self, _: &'static str, _: &T) -> Result<(), E> { Err(E) }
+            fn serialize_newtype_variant<T: ?Sized + Serialize>(self, _: &'static str, _: u32, _: &'static str, _: &T) -> Result<(), E> { Err(E) }
+            fn serialize_seq(self, _: Option<usize>) -> Result<Self::SerializeSeq, E> { Err(E) }
+            fn serialize_tuple(self, _: usize) -> Result<Self::SerializeTuple, E> { Err(E) }
+            fn serialize_tuple_struct(self, _: &'static str, _: usize) -> Result<Self::SerializeTupleStruct, E> { Err(E) }
+            fn serialize_tuple_variant(self, _: &'static str, _: u32, _: &'static str, _: usize) -> Result<Self::SerializeTupleVariant, E> { Err(E) }
+            fn serialize_map(self, _: Option<usize>) -> Result<Self::SerializeMap, E> { Err(E) }
+            fn serialize_struct(self, _name: &'static str, len: usize) -> Result<RecStruct, E> { DECLARED.store(len, Relaxed); Ok(RecStruct) }
+            fn serialize_struct_variant(self, _: &'static str, _: u32, _: &'static str, _: usize) -> Result<Self::SerializeStructVariant, E> { Err(E) }
+        }
+    }
+    #[cfg(feature = "serde")]
+    #[kani::proof]
+    #[kani::unwind(20)]
+    fn k_serde_visits_every_decoder_field() {
+        use ::core::sync::atomic::Ordering::Relaxed;
+        use ::serde::ser::Serialize;
+        let r = DecompressorOxide::default();
+        // exhaustive: fails to compile when the struct's field set changes
+        let DecompressorOxide { state: _, num_bits: _, z_header0: _, z_header1: _, z_adler32: _, finish: _, block_type: _, check_adler32: _, dist: _,
+            counter: _, num_extra: _, table_sizes: _, bit_buf: _, tables: _, code_size_literal: _, code_size_dist: _, code_size_huffman: _, raw_header: _, len_codes: _ } = &r;
+        let res = r.serialize(serde_rec::Rec);
+        assert!(res.is_ok() && serde_rec::ENDED.load(Relaxed) == 1, "OBL:serde.decoder_serializes_as_one_struct [C19]");
+        assert!(serde_rec::DECLARED.load(Relaxed) == serde_rec::N_FIELDS && serde_rec::VISITED.load(Relaxed) == serde_rec::N_FIELDS,
+            "OBL:serde.every_decoder_field_is_serialized_none_skipped [C19]");
+        assert!(serde_rec::IN_ORDER.load(Relaxed) == serde_rec::N_FIELDS, "OBL:serde.fields_serialized_under_their_own_names_in_declaration_order [C19]");
+    }
+
     //@PLAYBACK@
 }
